@@ -31,7 +31,8 @@ class Stream:
     """One correspondence stream: cases run by harness mode `mode` and by Gallina function `runner`."""
     def __init__(self, name, mode, imports, runner, gen, oracle=None, nontrivial=None, as_limit_gb=None,
                  shard=400, rust_shards=1, scope="N_scope", canon=None, reference=False,
-                 canon_case=None, post=None, post_runner=None, measure=None):
+                 canon_case=None, post=None, post_runner=None, measure=None, mem_gb_per_mb=6.5):
+        self.mem_gb_per_mb = mem_gb_per_mb      # memory coqc needs per MB of case file (admission control in core)
         # measure(case, raw_impl_line) -> dict of counters summed into the evidence (what a case actually covered)
         self.measure = measure
         # canon_case(case, line): canonicalisation that needs the case (e.g. keys -> ranks)
@@ -139,7 +140,7 @@ def run_property(spec, tier, seed):
         if model_ok and st.runner:
             try:
                 model = core.run_model_cases(st.imports, st.runner, [c.coq for c in cases],
-                                             "%s_%s" % (pid, st.name), shard=st.shard, scope=st.scope)
+                                             "%s_%s" % (pid, st.name), shard=st.shard, scope=st.scope, mem_gb_per_mb=st.mem_gb_per_mb)
             except Exception as e:
                 log("model evaluation error: %s" % e)
                 broken.append("model evaluation (%s): %s" % (st.name, str(e)[:300]))
@@ -172,7 +173,7 @@ def run_property(spec, tier, seed):
                         terms.append(t); owners.append((c, j))
             if terms:
                 try:
-                    verdicts = core.run_model_cases(st.imports, st.post_runner, terms, "%s_%s_post" % (pid, st.name), shard=st.shard * 4, scope=st.scope)
+                    verdicts = core.run_model_cases(st.imports, st.post_runner, terms, "%s_%s_post" % (pid, st.name), shard=st.shard * 4, scope=st.scope, mem_gb_per_mb=st.mem_gb_per_mb)
                     for (c, j), v in zip(owners, verdicts):
                         if v != "ok":
                             oracle_fail.append((st, c, c.meta.get("impl", ""), None, "verified checker %s rejects dump %d: %s" % (st.post_runner, j, v)))
